@@ -664,7 +664,7 @@ impl PaZipCompressor {
                     output.push(byte_value);
                 }
             }
-            CompressionType::NearShort | CompressionType::Far1Short => {
+            CompressionType::NearShort => {
                 // Read distance and length (both as single bytes)
                 if new_pos + 1 >= input.len() {
                     return Ok(new_pos);
@@ -675,14 +675,29 @@ impl PaZipCompressor {
 
                 self.copy_from_distance(output, distance, length)?;
             }
-            CompressionType::Far2Short => {
-                // Read 2-byte distance and 1-byte length
+            CompressionType::Far1Short => {
+                // Read 2-byte distance (up to 257) and 1-byte length, as written by
+                // apply_compression_strategy
                 if new_pos + 2 >= input.len() {
                     return Ok(new_pos);
                 }
                 let distance = u16::from_le_bytes([input[new_pos], input[new_pos + 1]]) as usize;
                 let length = input[new_pos + 2] as usize;
                 new_pos += 3;
+
+                self.copy_from_distance(output, distance, length)?;
+            }
+            CompressionType::Far2Short => {
+                // Read 4-byte distance (up to 65793) and 1-byte length, as written by
+                // apply_compression_strategy
+                if new_pos + 4 >= input.len() {
+                    return Ok(new_pos);
+                }
+                let distance = u32::from_le_bytes([
+                    input[new_pos], input[new_pos + 1], input[new_pos + 2], input[new_pos + 3]
+                ]) as usize;
+                let length = input[new_pos + 4] as usize;
+                new_pos += 5;
 
                 self.copy_from_distance(output, distance, length)?;
             }
